@@ -71,6 +71,7 @@ pub enum SOp {
     Withdraw { d: u32, v: u32 },
     SetWithdraw { d: u32, to: u32 },
     /// slash by p/1000 (p > 1000 is invalid)
+    /// fraction in thousandths; values >= 1_000_000 mean 1 + (p_milli - 1_000_000) * 10^-18
     Slash { v: u32, p_milli: u32 },
     Advance { jump: Jump, set: bool, slices: u32 },
 }
@@ -368,6 +369,12 @@ impl Run {
                     p.w_hi = 0;
                 }
                 self.m.queue.push_back(Pending { payout_at: now + unb * NS, d, v: *v as usize, amount: a });
+                if self.m.queue.len() >= 8 {
+                    self.stats.probe("unbonding_queue_ge_8");
+                }
+                if self.m.queue.len() >= 20 {
+                    self.stats.probe("unbonding_queue_ge_20");
+                }
             }
             StakeMsg::Redelegate { src, dst, .. } => {
                 let p = self.pair(d, *src as usize);
@@ -695,7 +702,7 @@ impl Run {
         let before = self.app.storage().snapshot();
         let val = self.validator(v);
         let app = &mut self.app;
-        let real = guarded(|| app.sudo(SudoMsg::Staking(StakingSudo::Slash { validator: val, percentage: Decimal::permille(p_milli as u64) })).map(|_| ()));
+        let real = guarded(|| app.sudo(SudoMsg::Staking(StakingSudo::Slash { validator: val, percentage: if p_milli >= 1_000_000 { Decimal::raw(1_000_000_000_000_000_000u128 + (p_milli - 1_000_000) as u128) } else { Decimal::permille(p_milli as u64) } })).map(|_| ()));
         self.stats.steps += 1;
         match (real, valid) {
             (RealOut::Panic(p), _) => self.vall("panic", format!("{}: the simulator panicked: {}", what, p)),
@@ -937,8 +944,8 @@ pub fn build(case: &Case) -> Run {
     set_current_world(Some(world.clone()));
     let prefix: &'static str = PREFIXES[case.prefix as usize % PREFIXES.len()];
     let api = MockApiBech32::new(prefix);
-    let nd = case.n_delegators.clamp(1, 6) as usize;
-    let nv = case.n_validators.clamp(1, 4) as usize;
+    let nd = case.n_delegators.clamp(1, 12) as usize;
+    let nv = case.n_validators.clamp(1, 9) as usize;
     let mut addrs: Vec<String> = (0..nd).map(|i| api.addr_make(&format!("delegator{}", i)).to_string()).collect();
     // two extra accounts usable as withdraw addresses
     addrs.push(api.addr_make("extra0").to_string());
@@ -1111,8 +1118,10 @@ impl Engine for StakeSim {
     }
 
     fn generate(&self, rng: &mut Rng, cfg: &Cfg) -> Case {
-        let nd = 2 + rng.below(4) as u32;
-        let nv = 2 + rng.below(3) as u32;
+        // one run in six is "wide": many delegators and validators (long staker lists, long queues)
+        let wide = rng.chance(1, 6);
+        let nd = if wide { 6 + rng.below(7) as u32 } else { 2 + rng.below(4) as u32 };
+        let nv = if wide { 4 + rng.below(6) as u32 } else { 2 + rng.below(3) as u32 };
         let rates = [0u32, 1, 500, 1000, 1234, 2500, 5000, 9999, 10_000];
         let commissions = (0..nv).map(|_| *rng.pick(&rates)).collect();
         let max_commissions = (0..nv).map(|_| if rng.chance(1, 2) { 10_000 } else { *rng.pick(&rates) }).collect();
@@ -1129,6 +1138,13 @@ impl Engine for StakeSim {
             "C16" => w[4] = 7,
             _ => {}
         }
+        let nops = if wide { nops + 40 } else { nops };
+        if wide {
+            // long staker lists and long unbonding queues: many messages between clock jumps
+            w[0] = 26;
+            w[1] = 6;
+            w[5] = 3;
+        }
         for x in w.iter_mut().skip(1) {
             if rng.chance(1, 7) {
                 *x = 0;
@@ -1136,10 +1152,37 @@ impl Engine for StakeSim {
         }
         let mut ops = vec![];
         let mut total_secs: u64 = 0;
+        // pairs that were probably delegated to: un- and redelegations mostly aim at those
+        let mut hot: Vec<(u32, u32)> = vec![];
         for _ in 0..nops {
             let d = rng.below(nd as u64) as u32;
             let op = match rng.weighted(&w) {
-                0 => SOp::Msg { d, m: gen_msg(rng, nv) },
+                0 => {
+                    let mut m = gen_msg(rng, nv);
+                    let mut d = d;
+                    match &mut m {
+                        StakeMsg::Delegate { v, .. } => hot.push((d, *v)),
+                        StakeMsg::Undelegate { v, amt, .. } if !hot.is_empty() && rng.chance(3, 4) => {
+                            let (hd, hv) = *rng.pick(&hot);
+                            d = hd;
+                            *v = hv;
+                            if wide && rng.chance(1, 2) {
+                                // small pieces, so that many unbondings of one pair queue up
+                                *amt = SAmt::Abs(rng.range(1, 5));
+                            }
+                        }
+                        StakeMsg::Redelegate { src, .. } if !hot.is_empty() && rng.chance(3, 4) => {
+                            let (hd, hv) = *rng.pick(&hot);
+                            d = hd;
+                            *src = hv;
+                        }
+                        _ => {}
+                    }
+                    if let StakeMsg::Redelegate { dst, .. } = &m {
+                        hot.push((d, *dst));
+                    }
+                    SOp::Msg { d, m }
+                }
                 1 => {
                     let n = 1 + rng.below(3);
                     SOp::Batch { d, ms: (0..n).map(|_| gen_msg(rng, nv)).collect() }
@@ -1152,7 +1195,11 @@ impl Engine for StakeSim {
                         1 => 0,
                         2 => 500,
                         3 => 400,
-                        4 => 1001 + rng.below(2000) as u32,
+                        // above one: from one unit of the 18th decimal to 300 %
+                        4 => {
+                            let r = 1001 + rng.below(2000) as u32;
+                            *rng.pick(&[1001u32, 1005, 1009, 1010, 1011, 1_000_001, 1_000_002, 1_500_000, 4_000_000_000, r])
+                        }
                         5 => 999,
                         _ => rng.below(1001) as u32,
                     };
@@ -1311,7 +1358,7 @@ impl Engine for StakeSim {
     }
 
     fn rule(&self) -> String {
-        "one case = staking parameters fixed at setup (APR, per-validator commissions with <= 4 decimals, unbonding time 1 s .. 30 d), 2-5 delegators (optionally one of them a contract whose staking messages arrive as sub-messages) x 2-4 validators, and a seeded schedule of delegate / undelegate / redelegate (valid and invalid variants, single and in execute_multi batches), reward withdrawals, withdraw-address changes, slashes (fractions with <= 3 decimals in [0,1] and above) and block updates; the simulator owns the clock and jumps to the next unbonding maturity, one second before / after it, past several at once, by zero, or by random spans (seconds .. 2 years, sliced into 1-4 block updates, via update_block or set_block). After every step: all balances, all shown delegations (single and all-delegations queries), supply, payouts, reward bounds against exact integer arithmetic (never over-paid; short by less than one token per withdrawal plus one), per-slash before/after relation for every pair. Non-trivial = a valid slash happened or the clock jumped relative to a pending maturity. Distinct = hash of the (operation kind, slashed validator, clock-jump class) sequence.".to_string()
+        "one case = staking parameters fixed at setup (APR, per-validator commissions with <= 4 decimals, unbonding time 1 s .. 30 d), 2-5 delegators (optionally one of them a contract whose staking messages arrive as sub-messages) x 2-4 validators (one run in six: 6-12 x 4-9), bonded denomination TOKEN / ustake / atom, and a seeded schedule of delegate / undelegate / redelegate (valid and invalid variants, single and in execute_multi batches), reward withdrawals, withdraw-address changes, slashes (fractions with <= 3 decimals in [0,1] and above) and block updates; the simulator owns the clock and jumps to the next unbonding maturity, one second before / after it, past several at once, by zero, or by random spans (seconds .. 2 years, sliced into 1-4 block updates, via update_block or set_block). After every step: all balances, all shown delegations (single and all-delegations queries), supply, payouts, reward bounds against exact integer arithmetic (never over-paid; short by less than one token per withdrawal plus one), per-slash before/after relation for every pair. Non-trivial = a valid slash happened or the clock jumped relative to a pending maturity. Distinct = hash of the (operation kind, slashed validator, clock-jump class) sequence.".to_string()
     }
 
     fn assumptions(&self, _cfg: &Cfg) -> Vec<String> {
